@@ -281,7 +281,7 @@ func finish(eng *Engine, ev *Evidence, prop, tier string, seed int, results []*H
 	sort.Strings(fl)
 	srcHash := map[string]string{}
 	for _, f := range []string{"db.go", "tx.go", "tx_bptree.go", "tx_list.go", "tx_set.go", "tx_zset.go", "bptree.go", "bptree_root_idx.go", "bucket_meta.go", "entry.go", "datafile.go", "record.go", "rwmanger_fileio.go", "rwmanger_mmap.go", "utils.go", "options.go", "ds/list/list.go", "ds/set/set.go", "ds/zset/sortedset.go", "ds/zset/node.go"} {
-		srcHash[f] = fileSHA(filepath.Join("/repo", f))
+		srcHash[f] = fileSHA(filepath.Join(repoRoot, f))
 	}
 	if len(samples) == 0 {
 		samples = append(samples, map[string]interface{}{"note": "no completed path produced a model"})
